@@ -27,7 +27,7 @@ def ctxOfJson (j : Json) : Except String Ctx := do
   let db ← (← jarr j "db").mapM stackOfJson
   let mode ← modeOf (← (← j.getObjVal? "mode").getStr?)
   let accepted ← (← jarr j "accepted").mapM fun b => b.getBool?
-  pure (mkCtx simpleOrd (← jstrs j "globalTags") db mode (← jstr j "native") accepted)
+  pure (mkCtx simpleOrd (← jstrs j "globalTags") db mode (← jstrs j "loaded") accepted)
 
 def reqOfJson (j : Json) : Except String Req := do
   let already ← (match j.getObjVal? "already" with
